@@ -25,7 +25,7 @@ def fresh_value(x):
 	if isinstance(x, tuple) and type(x) is tuple:
 		return tuple(fresh_value(e) for e in x)
 	if isinstance(x, dict):
-		return {k: fresh_value(v) for k, v in x.items()}
+		return {k: fresh_value(v) for k, v in reversed(list(x.items()))}      # an EQUAL dict with another insertion order
 	return x
 
 
